@@ -487,7 +487,7 @@ func rvCheck(k kase, mode llvmMode) (v verdict) {
 	name := rvName(as)
 	// findings are the same for both XLENs unless the key says otherwise
 	pfx := "rv/" + name + "/"
-	base, barg, slots, spec, isPseudo, known := rvLookup(name, *arg)
+	base, barg, slots, spec, _, known := rvLookup(name, *arg)
 	if !known {
 		v.add("harness/no-spec/"+name, "the harness has no ISA description for %s (encoder produced %08x)", name, word)
 		return
@@ -581,7 +581,9 @@ own:
 		return
 	}
 	if derr != nil {
-		v.add(pfx+"own-decode/error", "%s; riscv.Decode: %v", desc, derr)
+		if !contains(indep, "op") && !contains(indep, "undecodable") {
+			v.add(pfx+"own-decode/error", "%s; riscv.Decode: %v", desc, derr)
+		}
 		return
 	}
 	if dn := rvName(das); dn != base {
@@ -603,7 +605,6 @@ own:
 		}
 		v.add(rvKey(name, slots, "own-decode/"+a), "%s; riscv.Decode returns %s %s = %q, want %q", desc, dn2(das), rvArgString(spec.slots, *darg), back.String(), want.String())
 	}
-	_ = isPseudo
 	return
 }
 
